@@ -182,6 +182,17 @@ type envStepEvent struct {
 	Unchanged bool   `json:"unchanged"`
 }
 
+// confEvent: the witness was restarted on the same database with this list of configured logs (environment action Reconfigure of Retire.tla)
+type confEvent struct {
+	E         string              `json:"e"`
+	Run       string              `json:"run"`
+	K         int                 `json:"k"`
+	Cls       string              `json:"cls"`
+	Conf      []string            `json:"conf"`
+	Stored    map[string]world.CP `json:"stored"`
+	Unchanged bool                `json:"unchanged"`
+}
+
 type resetEvent struct {
 	E     string `json:"e"`
 	Run   string `json:"run"`
@@ -547,6 +558,18 @@ func execPhase(base *world.World, tag string, phase int, steps []seqStep, storeK
 				u, _ := url.Parse(srv.URL)
 				cl = wclient.NewWitness(u, srv.Client())
 			}
+			// (the skip event appended above stands for a restart that could not be done; this one tells the judges which logs the running
+			//  instance is configured with now - Retire.tla's `conf` - and that the store holds, byte for byte, what it held before the restart)
+			after := takeSnapshot(w, st.p)
+			confNow := []string{}
+			for name := range w.Logs {
+				if !(s.Cls == "retire" && name == s.Log) {
+					confNow = append(confNow, name)
+				}
+			}
+			sort.Strings(confNow)
+			events[len(events)-1] = confEvent{E: "conf", Run: tag, K: k, Cls: s.Cls, Conf: confNow, Stored: project(w, after), Unchanged: snap.equal(after)}
+			pre = after
 			continue
 		case "bgget":
 			// start a read in the background; with Hold set, its storage read is let through and its return is held until "release"
